@@ -165,6 +165,9 @@ def _configure_hdr(cfg):
 
 
 H_SPEC = r"""
+/* plain (unwound) harness: the char_traits shims need bodies (memchr / memcmp semantics) */
+const char *xc_traits_find(const char *p, size_t n, char ch) { for (size_t i = 0; i < n; i++) if (p[i] == ch) return p + i; return NULL; }
+int xc_traits_compare(const char *a, const char *b, size_t n) { for (size_t i = 0; i < n; i++) if (a[i] != b[i]) return (unsigned char)a[i] < (unsigned char)b[i] ? -1 : 1; return 0; }
 static char xc_hexd(unsigned v) { return (char)(v < 10 ? '0' + v : 'A' + (v - 10)); }
 /* the header form of one byte: token characters as they are, blank as '+', everything else %XX */
 static size_t xc_enc1(char c, char *out) { if (PLAIN(c)) { out[0] = c; return 1; } if (c == ' ') { out[0] = '+'; return 1; } out[0] = '%'; out[1] = xc_hexd(((unsigned char)c) >> 4); out[2] = xc_hexd(((unsigned char)c) & 15); return 3; }
@@ -201,12 +204,25 @@ void h_ToHeader_member_bounded(void)
   __CPROVER_assert(0, "XC_CANARY end of harness reachable");
 }
 """
-BNH = "one member, one-byte key and one-byte value over every printable byte (value not ';'); everything inlined, full unwinding; the header form is given by an independent per-byte encoder in the harness"
-_pf = Proof("FromHeader_member_bounded", [("Baggage::FromHeader", 1), ("Baggage::Baggage", 0)], harness=H_FROM, loop_contracts=False, unwind=9, level="bounded",
-            configure=_configure_hdr, timeout=900, bound_note=BNH, desc="FromHeader(header form of (k, v)) == (k, v)")
+BNH = "one member; the header form is given by an independent per-byte encoder in the harness; everything inlined, full unwinding"
+CASES = {"plain": ("PLAIN(%s)", "a token character (header form: itself)"), "blank": ("%s == ' '", "a blank (header form: '+')"),
+         "escaped": ("(PRINTABLE(%s) && !PLAIN(%s) && %s != ' ')", "any other printable byte (header form: %%XX)")}
+_hdr_proofs = []
+for _side in ("key", "value"):
+    for _cn, (_cond, _what) in CASES.items():
+        _var = "kc" if _side == "key" else "vc"
+        _other = "vc == 'x'" if _side == "key" else "kc == 'k'"
+        _assume = "(" + (_cond % ((_var,) * _cond.count("%s"))) + ") && " + _other + (" && vc != ';'" if _side == "value" else "")
+        _name = "FromHeader_%s_%s_bounded" % (_side, _cn)
+        _h = H_FROM.replace("h_FromHeader_member_bounded", "h_" + _name).replace("PRINTABLE(kc) && PRINTABLE(vc) && vc != ';'", _assume)
+        _p = Proof(_name, [("Baggage::FromHeader", 1), ("Baggage::Baggage", 0)], harness=_h, loop_contracts=False, unwind=9, level="bounded",
+                   configure=_configure_hdr, timeout=600, bound_note=BNH + "; one-byte %s = %s, the other side a fixed token character" % (_side, _what),
+                   desc="FromHeader(header form of (k, v)) == (k, v)")
+        _hdr_proofs.append(_p)
 _pt = Proof("ToHeader_member_bounded", [("Baggage::ToHeader", 0), ("KeyValueProperties::AddEntry", 2), ("Baggage::Baggage", 1, "(size_t)")], harness=H_TO, loop_contracts=False,
-            unwind=5, level="bounded", configure=_configure_hdr, timeout=900, bound_note=BNH, desc="ToHeader(b) == header form of (k, v)")
-for _ph in (_pf, _pt):
+            unwind=5, level="bounded", configure=_configure_hdr, timeout=600, bound_note=BNH + "; one-byte key and value over every printable byte (value not ';')", desc="ToHeader(b) == header form of (k, v)")
+for _ph in [_pt]:   # the FromHeader_* harnesses are NOT registered: the inlined FromHeader needs > 16 GB / > 300 s even for one concrete header shape (see DESIGN.md section 8, C15-a)
+
     _ph.defines_c = "#define XC_SB_CAP 8\n"
     _ph.post_struct_c = "Baggage *g_default_b;\nstatic Baggage *xc_Baggage_GetDefault_ptr(void) { return g_default_b; }\n"
     proofs.append(_ph)
